@@ -97,4 +97,242 @@ theorem spec_delTxMeta (now : Time) (strict : Bool) (n : Nat) (sv : String) (id 
       · intro x; split <;> rfl
     · simp only [hc, Bool.false_eq_true, ↓reduceIte, eval] at h; cases h
 
+theorem eval_call_some {α : Type} (now : Time) (c : Call) (k : c.Ret → Prog α) (d : Db) (sq : Seqs)
+    (x : α × Db × Seqs) (h : eval now (.call c k) d sq = some x) :
+    ∃ sq' r d', exec now c d sq = (sq', .ok (r, d')) ∧ eval now (k r) d' sq' = some x := by
+  simp only [eval] at h
+  split at h
+  · cases h
+  · rename_i sq' r d' heq
+    exact ⟨sq', r, d', heq, h⟩
+
+/-- `CommitTransaction`: schemas and accounts untouched, one row appended. -/
+theorem commit_view (now : Time) (t : TxIn) (d : Db) (sq sq' : Seqs) (row : Tx) (d' : Db)
+    (h : exec now (.commitTransaction t) d sq = (sq', .ok (row, d'))) :
+    d'.schemas = d.schemas ∧ d'.accounts = d.accounts ∧ d'.txs = d.txs ++ [row] := by
+  simp only [exec] at h
+  have key : ∀ x : Tx × Db, (commitTransaction now t d sq).2 = .ok x →
+      x.2.schemas = d.schemas ∧ x.2.accounts = d.accounts ∧ x.2.txs = d.txs ++ [x.1] := by
+    intro x hx
+    unfold commitTransaction at hx
+    cases hid : t.id <;> simp only [hid] at hx <;> split at hx <;> (try split at hx) <;>
+      first | (cases hx; exact ⟨rfl, rfl, rfl⟩) | cases hx
+  exact key (row, d') (by rw [h])
+
+theorem projTxMeta_append (d d' : Db) (row : Tx) (h : d'.txs = d.txs ++ [row]) :
+    projTxMeta d' = projTxMeta d ++ [(row.id, row.metadata)] := by
+  unfold projTxMeta; rw [h, List.map_append]; rfl
+
+theorem spec_revert (now : Time) (strict : Bool) (n : Nat) (sv : String) (id : Nat) (force aed : Bool) (m : Meta)
+    (schema : Option Schema) (d1 d2 : Db) (sq1 sq2 : Seqs) (p : Payload) (lid : Nat) (ik ihash : String)
+    (h : eval now (body strict (.revert id force aed m) n schema) d1 sq1 = some (p, d2, sq2)) :
+    specStep (view d1) (mkLog lid p now ik ihash sv) = view d2 := by
+  simp only [body, revertBody] at h
+  obtain ⟨sqa, r, da, hex, h⟩ := eval_call_some now _ _ d1 sq1 _ h
+  simp only [exec, revertTransaction, Prod.mk.injEq] at hex
+  obtain ⟨_, hex⟩ := hex
+  cases hf : d1.findTx id with
+  | none => simp only [hf] at hex; cases hex
+  | some t =>
+    simp only [hf] at hex
+    cases hr : t.revertedAt with
+    | some w =>
+      simp only [hr, Except.ok.injEq, Prod.mk.injEq] at hex
+      obtain ⟨rfl, rfl⟩ := hex
+      simp only [Bool.not_false, ↓reduceIte, eval] at h
+      cases h
+    | none =>
+      simp only [hr, Except.ok.injEq, Prod.mk.injEq] at hex
+      obtain ⟨rfl, rfl⟩ := hex
+      simp only [Bool.not_true, Bool.false_eq_true, ↓reduceIte] at h
+      obtain ⟨sqb, bal, db, hexb, h⟩ := eval_call_some now _ _ _ _ _ h
+      simp only [exec, getBalances, Prod.mk.injEq, Except.ok.injEq] at hexb
+      obtain ⟨_, _, rfl⟩ := hexb
+      split at h
+      · simp only [eval] at h; cases h
+      · obtain ⟨sqc, row, dc, hexc, h⟩ := eval_call_some now _ _ _ _ _ h
+        simp only [eval, Option.some.injEq, Prod.mk.injEq] at h
+        obtain ⟨rfl, rfl, _⟩ := h
+        obtain ⟨hs, ha, ht⟩ := commit_view now _ _ _ _ _ _ hexc
+        simp only [specStep, mkLog, view]
+        have htx : projTxMeta dc = projTxMeta d1 ++ [(row.id, row.metadata)] := by
+          rw [projTxMeta_append _ dc row ht]
+          congr 1
+          show projTxMeta (d1.modifyTx id _) = projTxMeta d1
+          refine ((projTxMeta_modifyTx d1 id _ (fun old => old) ?_ ?_).trans (updTxMeta_id _ _)) <;> intro x <;> rfl
+        rw [htx]
+        have hacc : projAccounts dc = projAccounts d1 := by
+          unfold projAccounts; rw [ha]; rfl
+        rw [hacc, hs]
+        rfl
+
+/-- The account rows of a committed transaction, folded, are the journal's touches. -/
+theorem touch_fold (now ts ins : Time) (schemas : List Schema) (sv : String) (schema : Option Schema)
+    (am : Map String Meta)
+    (hD : ∀ a, defaultsOf schema a = specDefaults schemas sv a)
+    (addrs : List String) (accs : Map String Account) :
+    (addrs.foldl (fun acc a => upsertAccount now acc
+        { address := a, metadata := (match am.get? a with | some m => m | none => []),
+          firstUsage := some ts, insertionDate := some ins, updatedAt := some ins, defaults := defaultsOf schema a })
+      accs).map (fun e => (e.1, projAcc e.2)) =
+    addrs.foldl (fun acc a => specTouch schemas sv ts ins acc a (match am.get? a with | some m => m | none => []))
+      (accs.map fun e => (e.1, projAcc e.2)) := by
+  induction addrs generalizing accs with
+  | nil => rfl
+  | cons a r ih =>
+    simp only [List.foldl_cons]
+    rw [ih]
+    congr 1
+    rw [touch_step, hD]
+    rfl
+
+theorem spec_create (now : Time) (strict : Bool) (sv : String) (schema : Option Schema) (c : CreateIn)
+    (machine : Prog MachineResult) (hm : machine.All Call.LockOnly) (d1 d2 : Db) (sq1 sq2 : Seqs) (p : Payload)
+    (lid : Nat) (ik ihash : String) (hD : ∀ a, defaultsOf schema a = specDefaults d1.schemas sv a)
+    (h : eval now (createBody strict schema c machine) d1 sq1 = some (p, d2, sq2)) :
+    specStep (view d1) (mkLog lid p now ik ihash sv) = view d2 := by
+  unfold createBody at h
+  by_cases htr : templateRefused strict schema c.template = true
+  · rw [if_pos htr] at h; simp only [eval] at h; cases h
+  · rw [if_neg htr] at h
+    obtain ⟨r, dm, sqm, hmach, h⟩ := eval_bind_some now _ _ _ _ _ h
+    obtain ⟨hms, hma, hmt, _⟩ := eval_lockOnly now machine hm d1 sq1 _ hmach
+    simp only at hms hma hmt
+    by_cases hp : r.postings = []
+    · rw [if_pos hp] at h; simp only [eval] at h; cases h
+    · rw [if_neg hp] at h
+      by_cases ho : metaOverride r.txMeta c.metadata = true
+      · rw [if_pos ho] at h; simp only [eval] at h; cases h
+      · rw [if_neg ho] at h
+        obtain ⟨sqc, row, dc, hexc, h⟩ := eval_call_some now _ _ _ _ _ h
+        obtain ⟨hs, ha, ht⟩ := commit_view now _ _ _ _ _ _ hexc
+        simp only [eval, exec, Option.some.injEq, Prod.mk.injEq] at h
+        obtain ⟨rfl, rfl, _⟩ := h
+        simp only [specStep, mkLog, view]
+        have htx : projTxMeta (upsertAccounts now (accountRows schema row
+              (mergeAccountMeta r.accountMeta c.accountMeta)) dc) = projTxMeta d1 ++ [(row.id, row.metadata)] := by
+          show projTxMeta dc = _
+          rw [projTxMeta_append dm dc row ht]
+          unfold projTxMeta; rw [hmt]
+        rw [htx]
+        have hsch : (upsertAccounts now (accountRows schema row
+              (mergeAccountMeta r.accountMeta c.accountMeta)) dc).schemas = d1.schemas := by
+          show dc.schemas = _; rw [hs, hms]
+        rw [hsch]
+        have hacc : projAccounts (upsertAccounts now (accountRows schema row
+              (mergeAccountMeta r.accountMeta c.accountMeta)) dc) =
+            (accountsToUpsert row.postings (mergeAccountMeta r.accountMeta c.accountMeta)).foldl
+              (fun acc a => specTouch d1.schemas sv row.timestamp row.insertedAt acc a
+                (match (mergeAccountMeta r.accountMeta c.accountMeta).get? a with | some m => m | none => []))
+              (projAccounts d1) := by
+          rw [projAccounts_eq, projAccounts_eq]
+          simp only [upsertAccounts, accountRows, List.foldl_map, ha, hma]
+          exact touch_fold now row.timestamp row.insertedAt d1.schemas sv schema _ hD _ _
+        rw [hacc]
+        rfl
+
+/-- Every operation's function, seen from the journal. -/
+theorem body_spec (now : Time) (strict : Bool) (kind : OpKind) (n : Nat) (sv : String) (d1 d2 : Db)
+    (sq1 sq2 : Seqs) (p : Payload) (lid : Nat) (ik ihash : String)
+    (h : eval now (body strict kind n (if sv ≠ "" then findSchema sv d1 else none)) d1 sq1 = some (p, d2, sq2)) :
+    specStep (view d1) (mkLog lid p now ik ihash sv) = view d2 := by
+  cases kind with
+  | createP c ps force =>
+    exact spec_create now strict sv _ c _ (postingsMachine_lockOnly ps force) d1 d2 sq1 sq2 p lid ik ihash
+      (fun a => defaults_eq d1 sv a) h
+  | createS c obs =>
+    exact spec_create now strict sv _ c _ (scriptMachine_lockOnly obs n) d1 d2 sq1 sq2 p lid ik ihash
+      (fun a => defaults_eq d1 sv a) h
+  | revert id force aed m => exact spec_revert now strict n sv id force aed m _ d1 d2 sq1 sq2 p lid ik ihash h
+  | saveTxMeta id m => exact spec_saveTxMeta now strict n sv id m _ d1 d2 sq1 sq2 p lid ik ihash h
+  | saveAccMeta a m => exact spec_saveAccMeta now strict n sv a m d1 d2 sq1 sq2 p lid ik ihash h
+  | delTxMeta id key => exact spec_delTxMeta now strict n sv id key _ d1 d2 sq1 sq2 p lid ik ihash h
+  | delAccMeta a key => exact spec_delAccMeta now strict n sv a key _ d1 d2 sq1 sq2 p lid ik ihash h
+  | insertSchema v chart tpls bad => exact spec_insertSchema now strict n sv v chart tpls bad _ d1 d2 sq1 sq2 p lid ik ihash h
+
+theorem eval_schemaPhase (now : Time) (strict : Bool) (kind : OpKind) (sv : String) (d : Db) (sq : Seqs)
+    (x : Option Schema × Db × Seqs) (h : eval now (schemaPhase strict kind sv) d sq = some x) :
+    x.1 = (if sv ≠ "" then findSchema sv d else none) ∧ x.2.1 = d := by
+  unfold schemaPhase at h
+  by_cases hsv : sv = ""
+  · simp only [hsv, ne_eq, not_true_eq_false, ↓reduceIte] at h ⊢
+    split at h
+    · simp only [eval, exec] at h
+      split at h
+      · cases h
+      · simp only [eval, Option.some.injEq] at h; subst h; exact ⟨rfl, rfl⟩
+    · simp only [eval, Option.some.injEq] at h; subst h; exact ⟨rfl, rfl⟩
+  · simp only [ne_eq, hsv, not_false_eq_true, ↓reduceIte, eval, exec] at h ⊢
+    cases hf : findSchema sv d with
+    | none => simp only [hf, eval, exec] at h; cases h
+    | some sc => simp only [hf, eval, Option.some.injEq] at h; subst h; exact ⟨rfl, rfl⟩
+
+theorem eval_logPhase (now : Time) (strict : Bool) (ik ihash sv : String) (schema : Option Schema) (p : Payload)
+    (d : Db) (sq : Seqs) (x : Log × Db × Seqs) (h : eval now (logPhase strict ik ihash sv schema p) d sq = some x) :
+    ∃ lid, x.1 = mkLog lid p now ik ihash sv ∧ view x.2.1 = view d := by
+  have key : ∀ y : Log × Db × Seqs,
+      eval now (Prog.call (Call.insertLog { payload := p, ik := ik, ihash := ihash, schemaVersion := sv }) Prog.pure) d sq
+        = some y → ∃ lid, y.1 = mkLog lid p now ik ihash sv ∧ view y.2.1 = view d := by
+    intro y hy
+    simp only [eval, exec, insertLog] at hy
+    split at hy
+    · cases hy
+    · rename_i sq' r d' heq
+      simp only [eval, Option.some.injEq] at hy
+      subst hy
+      split at heq
+      · simp only [Prod.mk.injEq] at heq; exact nomatch heq.2
+      · split at heq
+        · simp only [Prod.mk.injEq] at heq; exact nomatch heq.2
+        · simp only [Prod.mk.injEq, Except.ok.injEq] at heq
+          obtain ⟨_, rfl, rfl⟩ := heq
+          exact ⟨_, rfl, rfl⟩
+  unfold logPhase at h
+  cases schema with
+  | none => simp only [Bool.false_eq_true, ↓reduceIte] at h; exact key x h
+  | some sc =>
+    simp only at h
+    by_cases hb : (strict && !validPayload sc p) = true
+    · rw [if_pos hb] at h; simp only [eval] at h; cases h
+    · rw [if_neg hb] at h; exact key x h
+
+/-- A complete `runLog` keeps the tables in agreement with the journal. -/
+theorem runLog_spec (now : Time) (hn : String) (f : Option Fault) (strict : Bool) (kind : OpKind)
+    (ik ihash sv : String) (n : Nat) (st0 st : RunSt) (log : Log)
+    (h : run now hn f (runLog strict kind ik ihash sv n) st0 = (.ok log, st)) (hs : SpecOk st0.db) :
+    SpecOk st.db := by
+  have happ := run_runLog_ok now hn f strict kind ik ihash sv n st0 st log h
+  have hev := run_ok_eval now hn f _ st0 st log h
+  unfold runLog at hev
+  obtain ⟨schema, d1, sq1, h1, hev⟩ := eval_bind_some now _ _ _ _ _ hev
+  obtain ⟨hsch, hd1⟩ := eval_schemaPhase now strict kind sv _ _ _ h1
+  simp only at hsch hd1
+  subst hd1
+  obtain ⟨p, d2, sq2, h2, h3⟩ := eval_bind_some now _ _ _ _ _ hev
+  obtain ⟨lid, hlog, hview⟩ := eval_logPhase now strict ik ihash sv schema p d2 sq2 _ h3
+  simp only at hlog hview
+  rw [hsch] at h2
+  have hb := body_spec now strict kind n sv st0.db d2 sq1 sq2 p lid ik ihash h2
+  unfold SpecOk at *
+  rw [happ.logs, specOf, List.foldl_append, List.foldl_cons, List.foldl_nil]
+  show specStep (specOf st0.db.logs) log = view st.db
+  rw [hs, hlog, hb, hview]
+
+theorem SpecOk.empty : SpecOk {} := rfl
+
+/-- Every write operation — with or without faults — keeps the tables in agreement
+    with the journal. -/
+theorem forgeLog_spec (strict : Bool) (op : Op) (f : Option Fault) (cf : Bool) (s : State) (h : SpecOk s.db) :
+    SpecOk (forgeLog strict op f cf s).state.db := by
+  rcases forgeLog_ending strict op f cf s with ⟨hu, _, _⟩ | ⟨st0, st, log, hn, f', n, _, h0, _, hrun, hc⟩
+  · rw [hu]; exact h
+  · rw [hc.1]
+    exact runLog_spec op.now hn f' strict op.kind op.ik op.ihash op.sv n st0 st log hrun (by rw [h0]; exact h)
+
+theorem runHist_spec (strict : Bool) (s : State) (ops : List Op) (h : SpecOk s.db) :
+    SpecOk (runHist strict s ops).db := by
+  induction ops generalizing s with
+  | nil => exact h
+  | cons op r ih => exact ih _ (forgeLog_spec strict op none false s h)
+
 end Ledger.Ctrl
